@@ -153,19 +153,12 @@ func (r *runner) call(op *Op) {
 	case "exterror":
 		s.ExtError(p, op.Who, op.Which, op.ID, op.ErrType)
 	case "invoke":
-		r.mu.Lock()
-		r.ninv++
-		k := r.ninv
-		r.mu.Unlock()
 		label := op.Label
-		if label == "" {
-			label = fmt.Sprintf("p%d", k)
-		}
 		caller := op.Caller
 		if caller == 0 {
 			caller = 1
 		}
-		s.Invoke(caller, k, op.body(), label, op.Ctx, op.Trace)
+		s.Invoke(caller, op.body(), label, op.Ctx, op.Trace)
 	case "reset":
 		s.Rec.Emit("plat", "ResetCall", "reason", op.Reason, "timeoutMs", op.Ms)
 		_, err := s.Srv.Reset(op.Reason, int64(op.Ms))
